@@ -686,7 +686,10 @@ def main() -> int:
     if q:
         cited = cited[::3]
     exits = [(a, b) for a in (True, False) for b in (True, False)]
-    parts = [("symbolic-layout", work_layout, lay_jobs), ("cited-lines", work_cited, cited), ("check-only-exit", work_exit, exits), ("lint-is-advisory", work_advisory, ADV)]
+    from . import c08
+
+    parts = [("symbolic-layout", work_layout, lay_jobs), ("cited-lines", work_cited, cited), ("check-only-exit", work_exit, exits), ("lint-is-advisory", work_advisory, ADV),
+             ("parser-error-citations", c08.work, c08.catalogue())]  # every ParserError of the C08 templates cites the offending file and line, for all hole values
     meta = {
         "functions_encoded": FILES,
         "bounds": "(a) 4 scenarios covering every definition kind (option, alias, typedef, const, enum, enum field, message, message field, nested enum/message) and references to types and constants at depth <= 2, each multi-line and on one physical line, starting on line 1 or later; line numbers, line-start offsets, columns and enum values symbolic (unbounded); runs of blank lines abstracted by one NEWLINE token; (b) 2 schemas x enumerated layouts (leading blank/comment lines, gaps, semicolons, imported) through the real lexer; (c) check-only exit logic for every warning count >= 0",
